@@ -137,3 +137,12 @@ def overall_accuracy(ref_voicing: Arr(Real, None), ref_cent: Arr(Real, None), es
     assert_step(ratio * sum_of(voiced_hits) <= sum_of(binary), label='voiced-part<=voiced-frames')
     assert_step(ratio * sum_of(voiced_hits) + sum_of(unvoiced_ok) <= n, label='numerator<=frames')
     ensures(0 <= result, result <= 1, label='range', props="C01")
+
+
+@lemma("C09")
+def lemma_raw_accuracies_ignore_estimated_voicing(rv: Arr(Real, None), rc: Arr(Real, None), ev1: Arr(Real, None), ev2: Arr(Real, None), ec: Arr(Real, None), tol: Real):
+    """raw pitch and raw chroma accuracy do not depend on the estimated voicing (so marking estimates unvoiced by a sign flip changes neither)"""
+    n = length(rv)
+    requires(voicing_ok(rv, ev1), voicing_ok(rv, ev2), length(rc) == n, length(ec) == n)
+    ensures(raw_pitch_accuracy(rv, rc, ev1, ec, tol) == raw_pitch_accuracy(rv, rc, ev2, ec, tol),
+            raw_chroma_accuracy(rv, rc, ev1, ec, tol) == raw_chroma_accuracy(rv, rc, ev2, ec, tol), label='voicing-free')
